@@ -11,6 +11,7 @@ import DelbDriver.Guards
 import DelbDriver.Clone
 import DelbDriver.XPathEval
 import DelbDriver.Attrs
+import DelbDriver.Document
 open Lean DelbDriver
 
 def dispatch (j : Json) : Except String Json := do
@@ -30,6 +31,8 @@ def dispatch (j : Json) : Except String Json := do
   | "locpath" => handleLocPath j
   | "foc" => handleFoc j
   | "attrs" => handleAttrs j
+  | "doc" => handleDoc j
+  | "dropkinds" => handleDropKinds j
   | "tokenize" => handleTokenize j
   | "reduce_content" => handleReduceContent j
   | _ => throw s!"unknown cmd {cmd}"
